@@ -212,6 +212,13 @@ fn scenario(seed: u64, k: u64, out: &Out) {
     if rng.chance(1, 2) {
         ccfg.cp_interval = (ccfg.last_n as u64 + 1 + rng.below(12)).max(4);
     }
+    // a third of the scenarios: the deviation is in the VOTE - a minority (fewer than the quorum) of proven peers serves a consistent lie:
+    // tampered filters at heights that touch a registered script together with block filter hashes and check points that chain over them
+    let liar_vote = rng.chance(1, 3);
+    if liar_vote {
+        ccfg.max_outbound = *rng.pick(&[3u32, 4, 5]);
+    }
+    let quorum = ((ccfg.max_outbound + 1) / 2) as usize;
     let main = Chain::generate(params.clone(), len);
     let scripts = pick_scripts(&mut rng, &main, rng_range_small(seed), 0);
     if scripts.is_empty() {
@@ -219,13 +226,20 @@ fn scenario(seed: u64, k: u64, out: &Out) {
         return;
     }
     let mut w = World::new(main, ccfg.clone(), seed, now);
-    let npeers = rng.range(2, 4) as usize;
+    let (npeers, ndev) = if liar_vote {
+        let ndev = rng.range(1, quorum as u64 - 1) as usize;
+        let honest = quorum + rng.range(0, 1) as usize;
+        (honest + ndev, ndev)
+    } else {
+        let npeers = rng.range(2, 4) as usize;
+        // deviating peers: all but one (the hashes and check points stay honest: the deviation is in BlockFilters only)
+        (npeers, rng.range(1, npeers as u64 - 1) as usize)
+    };
+    // in the liar-vote family the first `ndev` peers are put on the lying view below (peers are only records until connect_all)
     for _ in 0..npeers {
         w.add_peer(0, true);
     }
-    // deviating peers: all but one (the hashes and check points stay honest: the deviation is in BlockFilters only)
-    let ndev = rng.range(1, npeers as u64 - 1) as usize;
-    let deviators: HashSet<usize> = (0..ndev).collect();
+    let deviators: HashSet<usize> = if liar_vote { HashSet::new() } else { (0..ndev).collect() };
     let regs: Vec<(ckb_types::packed::Script, ST, u64)> = scripts.iter().map(|(s, st, _)| (s.clone(), *st, 0u64)).collect();
     set_scripts(&w, &regs, None);
     let chain = w.chains[0].clone();
@@ -238,15 +252,62 @@ fn scenario(seed: u64, k: u64, out: &Out) {
             }
         }
     }
+    let mut lied_at: Vec<u64> = vec![];
+    if liar_vote {
+        let mut liar = chain.clone();
+        let mut hot_sorted: Vec<u64> = hot.iter().cloned().filter(|h| *h >= 1).collect();
+        hot_sorted.sort();
+        let quiet: Vec<u64> = (1..=chain.tip()).filter(|h| !hot.contains(h)).collect();
+        if hot_sorted.is_empty() || quiet.is_empty() {
+            out.count("liar_vote_not_applicable", 1);
+        } else {
+            for _ in 0..rng.range(1, 3) {
+                let h = *rng.pick(&hot_sorted);
+                let f = chain.filters[*rng.pick(&quiet) as usize].clone();
+                if f.as_slice() != liar.filters[h as usize].as_slice() {
+                    liar.filters[h as usize] = f;
+                    lied_at.push(h);
+                }
+            }
+            if let Some(first) = lied_at.iter().min().cloned() {
+                // the lie is self-consistent: every filter hash from the first tampered height on is re-chained
+                for n in first..=liar.tip() {
+                    let parent = liar.filter_hashes[(n - 1) as usize].clone();
+                    liar.filter_hashes[n as usize] = ckb_types::utilities::calc_filter_hash(&parent, &liar.filters[n as usize]).pack();
+                }
+                let lci = w.add_chain(liar);
+                for pi in 0..ndev {
+                    w.peers[pi].chain = lci;
+                    w.peers[pi].honest = false;
+                }
+                out.cell(&format!("liar-vote|max_outbound={}|liars={}|peers={}", ccfg.max_outbound, ndev, npeers));
+                out.count("liar_vote_scenarios", 1);
+            }
+        }
+    }
     let focus = rng.below(4);
     let ops_allowed: Vec<usize> = if focus == 0 { (0..OPS.len()).collect() } else { let a = rng.pick_idx(OPS.len()); let b = rng.pick_idx(OPS.len()); vec![a, b] };
     let rate = *rng.pick(&[(1u64, 1u64), (1, 2), (1, 4)]);
     let desc = json!({"seed": seed, "scenario": k, "len": len, "peers": npeers, "deviators": ndev, "cp_interval": ccfg.cp_interval, "last_n": ccfg.last_n,
-        "scripts": regs.len(), "ops": ops_allowed.iter().map(|i| OPS[*i]).collect::<Vec<_>>(), "rate": format!("{}/{}", rate.0, rate.1)});
+        "liar_vote": liar_vote, "scripts": regs.len(), "ops": ops_allowed.iter().map(|i| OPS[*i]).collect::<Vec<_>>(), "rate": format!("{}/{}", rate.0, rate.1)});
     let mut adv = Adv { out, rng: Rng::new(seed ^ 0xc06), deviators, hot: hot.clone(), rate, applied: vec![], last_min: 0, ops_allowed };
+    if !lied_at.is_empty() && rng.chance(2, 3) {
+        // the liars are there first: for some rounds they are the only proven peers with data (fewer than the quorum)
+        for pi in 0..ndev {
+            w.connect(pi);
+        }
+        for _ in 0..rng.range(1, 10) {
+            w.round(&mut adv);
+        }
+        out.cell("liar-vote|liars-connected-first");
+    }
     w.connect_all();
     let conv = w.run_until(&mut adv, 400, |w| w.converged_on(0)).is_some();
     out.count(if conv { "converged" } else { "not_converged" }, 1);
+    if !lied_at.is_empty() {
+        // "fewer disagreeing peers than the quorum cannot block agreement among the rest" (bounded: 400 rounds), counted, see DESIGN 10.6
+        out.count(if conv { "liar_vote_converged" } else { "liar_vote_not_converged" }, 1);
+    }
     if let Some((ctx, p)) = w.panics.first() {
         out.violation("C06.R0", &p.signature("C06", ctx), json!({"scenario": desc, "panic": p.message, "at": p.location, "applied": adv.applied.len()}), k);
         w.close();
@@ -306,23 +367,26 @@ fn scenario(seed: u64, k: u64, out: &Out) {
             violated = true;
             // attribute: the last adversarial operator applied at (or covering) the first skipped height
             let h = missing[0];
-            let direct = adv.applied.iter().rev().find(|(op, at, at2, _)| if op == "shift-left-keep-start" { h + 8 >= *at && h <= *at2 } else { *at == h || *at2 == h }).map(|(op, _, _, _)| op.clone());
-            // blocks indexed out of order by a hash substitution: a later spend of a cell of such a block cannot be attributed
-            let blame = match direct {
-                Some(op) => op,
-                None => {
-                    let tainted = |b: u64| adv.applied.iter().rev().find(|(op, at, at2, _)| op.starts_with("hash") && (*at == b || *at2 == b)).map(|(op, _, _, _)| op.clone());
-                    let mut r = "unattributed".to_string();
-                    if !has_output_missing.contains(&h) {
-                        if let Some(prevs) = input_only.get(&h) {
-                            let ops: Vec<Option<String>> = prevs.iter().map(|b| tainted(*b)).collect();
-                            if !ops.is_empty() && ops.iter().all(|o| o.is_some()) {
-                                r = format!("{}|later-spend", ops[0].clone().unwrap());
-                            }
-                        }
+            let lied_here = lied_at.contains(&h);
+            let direct = if lied_here { Some("consistent-lie-of-a-minority (filters + hashes + check points)".to_string()) } else { None };
+            let direct = direct.or_else(|| adv.applied.iter().rev().find(|(op, at, at2, _)| if op == "shift-left-keep-start" { h + 8 >= *at && h <= *at2 } else { *at == h || *at2 == h }).map(|(op, _, _, _)| op.clone()));
+            // blocks indexed out of order by a hash substitution: a later spend of a cell of such a block cannot be attributed.
+            // This mechanism is recognised by its own evidence (every missing entry at the first skipped height is an input whose
+            // creating block was hit by a hash substitution) and takes precedence over "some operator was also applied at that height".
+            let tainted = |b: u64| adv.applied.iter().rev().find(|(op, at, at2, _)| op.starts_with("hash") && (*at == b || *at2 == b)).map(|(op, _, _, _)| op.clone());
+            let mut later_spend: Option<String> = None;
+            if !has_output_missing.contains(&h) {
+                if let Some(prevs) = input_only.get(&h) {
+                    let ops: Vec<Option<String>> = prevs.iter().map(|b| tainted(*b)).collect();
+                    if !ops.is_empty() && ops.iter().all(|o| o.is_some()) {
+                        later_spend = Some(format!("{}|later-spend", ops[0].clone().unwrap()));
                     }
-                    r
                 }
+            }
+            let blame = match (later_spend, direct) {
+                (Some(ls), _) => ls,
+                (None, Some(op)) => op,
+                (None, None) => "unattributed".to_string(),
             };
             out.violation(
                 "C06.R1",
